@@ -406,6 +406,8 @@ static void body(const struct params *pa)
 
   p = hx_new();
   if (!p) vk_finish(OUT_INFRA, "reproc_new failed");
+  int first_deadline = 0;
+  if (pa->nat >= 0 && !sc.o.deadline) { first_deadline = 2; sc.o.deadline = first_deadline; } /* this start is going to fail; the restart (a freshly built scenario) has no deadline */
   vk_script(sc.script);
   vk_script(sc.script); /* for a second start after a failed one */
   vk_faults_armed = pa->fault_window > 0;
@@ -486,6 +488,17 @@ static void body(const struct params *pa)
       goto destroy;
     }
     vk_hit(CL_RESTART_OK);
+    if (first_deadline && !sc.o.deadline && pa->scn != SC_FORK) {
+      /* the failed attempt carried a deadline, this one carries none: nothing of the first may have stayed behind in the handle */
+      int armed = vk_faults_armed;
+      vk_faults_armed = 0;
+      vk_advance(first_deadline + 3);
+      reproc_event_source src = { p, REPROC_EVENT_EXIT, 0 };
+      int pr = hx_poll(&src, 1, 0);
+      if (pr > 0 && (src.events & REPROC_EVENT_DEADLINE))
+        vk_violation("C04", "restart-after-failure", key, "a start without deadline, after a failed start with one on the same handle, reports that deadline as expired");
+      vk_faults_armed = armed;
+    }
     vk_faults_armed = saved;
     ninj = 0;
   } else if (pa->nat >= 0 && !ninj) {
